@@ -460,6 +460,17 @@ def rec_programs():
     out += variants(P('oneof_inside_rec', nodes, 'A', 'O', tags=['rec', 'oneof', 'D9']),
                     [[R({'K1': ['raise:E1']}, recreq={'D': 1})], [R({}, recreq={'D': 1})], [R({'K1': ['raise:E1']}, recreq={'D': 0})]],
                     ['k1fails_it1', 'ok_it1', 'k1fails_it0'])
+    # recurrent sub-graph inside a candidate; an inner node fails only in the second iteration (epoch-dependent plan)
+    nodes = [N('A'), N('S', I('p1', 'A')), N('M', I('p1', 'S')), N('D', I('p1', 'M')), N('K1', RC('p1', 'S', 'D', 2)), N('K2', I('p1', 'A')),
+             N('O', OO('p1', ['K1', 'K2']))]
+    out += variants(P('rec_in_oneof_late_failure', nodes, 'A', 'O', tags=['rec', 'oneof']),
+                    [[R(recreq={'D': 1}, plan_it={'M': [['ok'], ['raise:E1']]})], [R(recreq={'D': 1}, plan_it={'S': [['ok'], ['raise:E1']]})],
+                     [R(recreq={'D': 2}, plan_it={'D': [['ok'], ['ok'], ['raise:E2']]})]], ['m_it2', 's_it2', 'd_it3'])
+    # a retrying node outside the sub-graph reads a node inside it: every attempt must get the same arguments
+    nodes = [N('A'), N('S', I('p1', 'A')), N('Pn', I('p1', 'S')), N('D', I('p1', 'Pn')), N('X', I('p1', 'Pn'), attempts=2, delay=0.2),
+             N('O', RC('p1', 'S', 'D', 2), I('p2', 'X'))]
+    out += variants(P('retry_reads_rec_inside', nodes, 'A', 'O', tags=['rec', 'retry', 'D8']),
+                    [[R({'X': ['raise:E1', 'ok']}, recreq={'D': 1})]], ['x_retries'])
     # D8: outside reader of an inside node, deeper than the destination
     nodes = [N('A'), N('S', I('p1', 'A')), N('M', I('p1', 'S')), N('D', I('p1', 'M')),
              N('Q1', I('p1', 'A')), N('Q2', I('p1', 'Q1')), N('Q3', I('p1', 'Q2')), N('Q4', I('p1', 'Q3')),
